@@ -226,6 +226,9 @@ func (a *Analysis) inScope(fn *ssa.Function) bool {
 	return strings.HasPrefix(path, "github.com/coregx/")
 }
 
+// FnPkg exposes the package a function belongs to (origin package for instantiations and wrappers).
+func FnPkg(fn *ssa.Function) *types.Package { return fnPkg(fn) }
+
 func fnPkg(fn *ssa.Function) *types.Package {
 	if fn.Pkg != nil {
 		return fn.Pkg.Pkg
